@@ -114,7 +114,7 @@ def coproc_task(task):
         st['cpsr'] = limbs((C.unlimbs(st['cpsr']) & ~31) | mode)
         ns = 1 if mode == 26 else (rnd.getrandbits(1) if ext[0] else 0)
         st['sys']['SCR'] = limbs(((rnd.getrandbits(10) & ~1) | ns) if ext[0] else 0)
-        cp = rnd.choice([0, 1, 2, 3, 4, 5, 6, 7, 8, 9, 12, 13] * 4 + [10, 11, 14, 15])
+        cp = rnd.choice([0, 1, 2, 3, 4, 5, 6, 7, 8, 9, 12, 13] * 4 + [10, 11] + [14, 15] * 8)
         # every CPACR.cp<n> field value and NSACR.cp<n> bit for the addressed coprocessor; the other fields random
         cpacr = rnd.getrandbits(28) & ~(3 << (2 * cp)) if cp < 14 else rnd.getrandbits(28)
         if cp < 14:
@@ -127,6 +127,18 @@ def coproc_task(task):
                 st['R'][r] = limbs(rnd.randrange(8, 56) * 4)
         name, pat = rnd.choice(COPROC_PATS)
         body = G.fill(pat, rnd, fixed={'p': cp})
+        if cp == 14:
+            # steer into the populated corners of the CP14 space: opc1 in {0 debug, 1 trace, 6 ThumbEE, 7 Jazelle},
+            # LDC/STC with CRd = c5, MRRC with opc1 = 0
+            if name in ('mcr', 'mrc') and rnd.random() < 0.7:
+                opc1 = rnd.choice([0, 1, 6, 7])
+                body = (body & ~(7 << 21)) | (opc1 << 21)
+                if opc1 == 6 and rnd.random() < 0.6:
+                    body &= ~0xEE
+            elif name in ('ldc', 'stc') and rnd.random() < 0.6:
+                body = (body & ~0xF000) | 0x5000
+            elif name == 'mrrc' and rnd.random() < 0.5:
+                body &= ~0xF0
         if not thumb:
             cond = rnd.choice([14, 14, 15, 15, rnd.randrange(14)])
             w = (cond << 28) | body
@@ -253,8 +265,12 @@ def run(ctx):
                                   'other': sum(1 for g, e, v in cop if not v['path'].startswith(('exact:exc:', 'envelope:notimpl')))}
     if min(ctx.extra['coproc_events']['denied_undef_exact'], ctx.extra['coproc_events']['accepted_notimpl']) < 50:
         raise MachineryError('coprocessor gating: one of the two sides is hardly exercised: %s' % ctx.extra['coproc_events'])
-    ctx.extra['not_covered'] = ('coprocessor gating is specified for generic coprocessors (CP0-9, 12, 13); CP10/11 (VFP / Advanced '
-                                'SIMD), CP14/CP15 system accesses and HCPTR traps are envelope-only')
+    ctx.extra['not_covered'] = ('coprocessor gating is specified for generic coprocessors (CP0-9, 12, 13) and for the CP14 / CP15 '
+                                'system spaces (which forms exist; UNDEFINED otherwise); CP10/11 (VFP / Advanced SIMD), traps to Hyp '
+                                'mode (HCPTR, HSTR, HCR.TIDCP) and User-mode ThumbEE register accesses are envelope-only')
+    ctx.extra['coproc_cp14_cp15_events'] = {
+        'undef_exact': sum(1 for g, e, v in cop if g.meta[e['id']]['cp'] in (14, 15) and v['path'].startswith('exact:exc:')),
+        'hook_notimpl': sum(1 for g, e, v in cop if g.meta[e['id']]['cp'] in (14, 15) and v['path'].startswith('envelope:notimpl'))}
     ctx.extra['rule'] = ('cpsr/spsr_write_by_instr over every mode x 16 masks x return flag x secure/non-secure x NMFI x AW/FW x RFR '
                          'x 3 extension configurations with values differing from the old PSR in every field; random system '
                          'instruction words in every mode; entry+return programs for SVC/Undef/IRQ/FIQ/DAbort from ARM, Thumb and '
